@@ -245,6 +245,7 @@ func (tr *fnTrans) applyContractSig(c *Contract, key string, args []Term, sig *t
 			tr.hyp(tr.frameFormula(m, h0, n, allocPre, mods))
 			tr.atStep(m, h0, n, tr.touchedByMods(allocPre, m, mods), tr.touchedByMods(allocPre, m, mods))
 		}
+		tr.typedMapFacts(tr.alloc)
 	}
 	post := tr.env()
 	post.vars = map[string]Term{}
